@@ -86,14 +86,33 @@ def srcCol (imp : String) (tabs : List DObj) (r : String × Option String) : Col
     | [t] => Column.mk1 r.1 (some (t.d, t.printed))
     | _ => Column.mk1 r.1 none
 
+/-- the relations the names of a FROM clause denote (`set(alias_mapping.values())`), by the specification's alias map -/
+def denoted (tabs : List DObj) : List DS := (amValues (specAliasMap tabs)).map (·.1)
+
+/-- `<relation>.*` -/
+def starKey (d : DS) : Node := (Column.mk1 "*" (some (d, prDS d))).key
+
+/-- an unqualified `*` over a FROM clause that is not a single table reference -/
+def isStarMulti (tabs : List DObj) (r : String × Option String) : Bool :=
+  match r.2, tabs with
+  | none, [_] => false
+  | none, _ => r.1 == "*"
+  | some _, _ => false
+
+/-- the KEYS of the source columns a normalised reference denotes: the key of `srcCol`, except for an unqualified `*` over
+    several table references, which stands for `<relation>.*` of every relation the FROM clause denotes -/
+def srcKeys (imp : String) (tabs : List DObj) (r : String × Option String) : List Node :=
+  if isStarMulti tabs r then (denoted tabs).map starKey else [(srcCol imp tabs r).key]
+
 /-- the target column of a select item: named by the naming rule (`colSpecOf`), owned by the written table -/
 def tgtCol (env : Env) (tgt : List String) (it : Item) : Column :=
   Column.mk1 (colSpecOf env it).raw (some ((mkTable env tgt none).d, (mkTable env tgt none).printed))
 
-/-- the column pairs one select item contributes: one per column reference of its expression -/
+/-- the column pairs one select item contributes: one per column reference of its expression (one per relation for an
+    unqualified `*` over several relations) -/
 def itemPairs (env : Env) (tgt : List String) (tabs : List DObj) : Item → List (Node × Node)
-  | .mk e a k => (refs e).map (fun r =>
-      ((srcCol env.importDefault tabs (normRef r)).key, (tgtCol env tgt (.mk e a k)).key))
+  | .mk e a k => (refs e).flatMap (fun r =>
+      (srcKeys env.importDefault tabs (normRef r)).map (fun x => (x, (tgtCol env tgt (.mk e a k)).key)))
 
 /-- **the specification**: the (source column, target column) pairs of `INSERT INTO tgt SELECT its FROM frm` -/
 def specPairs (env : Env) (tgt : List String) (its : List Item) (frm : List FromExpr) : List (Node × Node) :=
@@ -133,12 +152,12 @@ def twoRelations (tabs : List DObj) : Bool :=
     | some v1, some v2 => v1.1 != v2.1
     | _, _ => false))
 
-/-- a NORMALISED column reference the theorem covers.  Unqualified: over exactly one table reference (resolved to it), or
-    over names denoting at least two different relations and not `*` (left unresolved).  Qualified: always — except that,
+/-- a NORMALISED column reference the theorem covers.  Unqualified: over exactly one table reference (resolved to it), a
+    `*` over any FROM clause, or over names denoting at least two different relations (left unresolved).  Qualified: always — except that,
     when the written table is not read (`avoid = some T`), the qualifier must not denote the written table. -/
 def refOKn (imp : String) (tabs : List DObj) (avoid : Option DS) (r : String × Option String) : Bool :=
   match r.2 with
-  | none => (match tabs with | [_] => true | _ => twoRelations tabs && r.1 != "*")
+  | none => (match tabs with | [_] => true | _ => r.1 == "*" || twoRelations tabs)
   | some q => (match avoid with | some T => (resolveQ imp tabs q).1 != T | none => true)
 
 def refOK (imp : String) (tabs : List DObj) (avoid : Option DS) (r : String × Option String) : Bool :=
@@ -1036,14 +1055,51 @@ def tsStep (imp : String) (m : AliasMap) (k : Nat) (acc : List Column) (sq : Str
 theorem toSourceColumns_fold (imp : String) (m : AliasMap) (c : ColSpec) (k : Nat) :
     toSourceColumns imp m c k = c.srcs.foldl (tsStep imp m k) [] := rfl
 
-/-- on the fragment every reference contributes ONE column: it has the key the specification names, its owner candidates
-    are tables, and (when the written table is not read) its owner is not the written table -/
+/-- every value of the specification's alias map is a table reference of the FROM clause under its printed name -/
+theorem specAliasMap_value (tabs : List DObj) : ∀ e ∈ specAliasMap tabs,
+    e.2.1.isTable = true ∧ e.2.2 = prDS e.2.1 ∧ ∃ o ∈ tabs, o.d = e.2.1 := by
+  intro e he
+  have hpr : ∀ o : DObj, o.d.isTable = true → o.printed = prDS o.d := by
+    intro o ho
+    obtain ⟨d, a⟩ := o
+    cases d with
+    | table _ _ => rfl
+    | path _ => cases ho
+    | subq _ => cases ho
+  rw [specAliasMap_split, List.mem_append] at he
+  rcases he with he | he
+  · unfold baseMap at he
+    simp only [List.mem_append, List.mem_filterMap, List.mem_map, List.mem_filter] at he
+    rcases he with (⟨o, ⟨hin, ho⟩, h⟩ | ⟨o, ⟨hin, ho⟩, h⟩) | ⟨o, ⟨hin, ho⟩, h⟩
+    · split at h
+      · cases h; exact ⟨ho, hpr o ho, o, hin, rfl⟩
+      · cases h
+    · rw [← h]; exact ⟨ho, hpr o ho, o, hin, rfl⟩
+    · split at h
+      · split at h
+        · cases h; exact ⟨ho, hpr o ho, o, hin, rfl⟩
+        · cases h
+      · cases h
+  · obtain ⟨o, hin, h⟩ := List.mem_filterMap.mp he
+    unfold explEntry at h
+    split at h
+    · rename_i hd _
+      split at h
+      · cases h
+        have ho : o.d.isTable = true := by rw [hd]; rfl
+        exact ⟨ho, hpr o ho, o, hin, rfl⟩
+      · cases h
+    · cases h
+
+/-- on the fragment every reference contributes columns whose keys are the keys the specification names; their owner
+    candidates are tables, and (when the written table is not read) their owner is not the written table -/
 theorem tsStep_spec (imp : String) (g : LGraph) (tabs : List DObj) (k : Nat)
     (hT : ∀ o ∈ tabs, isTabRef o = true) (hA : AliasOK g tabs) (hU : aliasesUnambiguous tabs = true)
     (avoid : Option DS) (havoid : ∀ T, avoid = some T → ∀ o ∈ tabs, o.d ≠ T)
     (r : String × Option String) (hr : refOKn imp tabs avoid r = true) :
-    ∃ X : Column, (∀ acc, tsStep imp (aliasMapping g tabs) k acc r = pushCol acc X) ∧ X.key = (srcCol imp tabs r).key ∧
-      colOK X ∧ ∀ T, avoid = some T → ∀ sp, X.parent? = some sp → sp.1 ≠ T := by
+    ∃ XS : List Column, (∀ acc, tsStep imp (aliasMapping g tabs) k acc r = XS.foldl pushCol acc) ∧
+      (∀ x, x ∈ XS.map (·.key) ↔ x ∈ srcKeys imp tabs r) ∧
+      ∀ X ∈ XS, colOK X ∧ ∀ T, avoid = some T → ∀ sp, X.parent? = some sp → sp.1 ≠ T := by
   have hT' : ∀ o ∈ tabs, o.d.isTable = true := by
     intro o ho
     have := hT o ho
@@ -1052,64 +1108,160 @@ theorem tsStep_spec (imp : String) (g : LGraph) (tabs : List DObj) (k : Nat)
   obtain ⟨rn, rq⟩ := r
   cases rq with
   | some q =>
-    refine ⟨Column.mk1 rn (some (resolveQ imp tabs q)), ?_, rfl, ?_, ?_⟩
+    refine ⟨[Column.mk1 rn (some (resolveQ imp tabs q))], ?_, ?_, ?_⟩
     · intro acc
-      simp only [tsStep, resolveQ]
+      simp only [tsStep, resolveQ, List.foldl_cons, List.foldl_nil]
       rw [amGet_aliasMapping g tabs hT' hA hU q]
       cases amGet (specAliasMap tabs) q <;> rfl
-    · intro p hp
-      simp only [Column.mk1, List.mem_singleton] at hp
-      rw [hp]; exact isSubq_of_isTable _ (resolveQ_isTable imp tabs q)
-    · intro T hTa sp hsp
-      simp only [Column.mk1, Column.parent?, Option.some.injEq] at hsp
-      rw [← hsp]
-      simp only [refOKn, hTa, bne_iff_ne] at hr
-      exact hr
+    · intro x
+      have : isStarMulti tabs (rn, some q) = false := by
+        unfold isStarMulti; cases tabs <;> rfl
+      simp only [srcKeys, this, Bool.false_eq_true, if_false, List.map_cons, List.map_nil, srcCol]
+    · intro X hX
+      simp only [List.mem_singleton] at hX
+      subst hX
+      refine ⟨?_, ?_⟩
+      · intro p hp
+        simp only [Column.mk1, List.mem_singleton] at hp
+        rw [hp]; exact isSubq_of_isTable _ (resolveQ_isTable imp tabs q)
+      · intro T hTa sp hsp
+        simp only [Column.mk1, Column.parent?, Option.some.injEq] at hsp
+        rw [← hsp]
+        simp only [refOKn, hTa, bne_iff_ne] at hr
+        exact hr
   | none =>
     match tabs, hT, hT', hA, hU, havoid, hr with
     | [t], hT, hT', hA, hU, havoid, hr =>
-      refine ⟨Column.mk1 rn (some (t.d, t.printed)), ?_, rfl, ?_, ?_⟩
+      refine ⟨[Column.mk1 rn (some (t.d, t.printed))], ?_, ?_, ?_⟩
       · intro acc
         simp only [tsStep]
         rw [amValues_single g t (hT' t (by simp)), permK_single]
         simp only [List.foldl_cons, List.foldl_nil, addParent_none, ite_self]
-      · intro p hp
-        simp only [Column.mk1, List.mem_singleton] at hp
-        rw [hp]; exact isSubq_of_isTable _ (hT' t (by simp))
-      · intro T hTa sp hsp
-        simp only [Column.mk1, Column.parent?, Option.some.injEq] at hsp
-        rw [← hsp]; exact havoid T hTa t (by simp)
+      · intro x
+        simp only [srcKeys, isStarMulti, Bool.false_eq_true, if_false, List.map_cons, List.map_nil, srcCol]
+      · intro X hX
+        simp only [List.mem_singleton] at hX
+        subst hX
+        refine ⟨?_, ?_⟩
+        · intro p hp
+          simp only [Column.mk1, List.mem_singleton] at hp
+          rw [hp]; exact isSubq_of_isTable _ (hT' t (by simp))
+        · intro T hTa sp hsp
+          simp only [Column.mk1, Column.parent?, Option.some.injEq] at hsp
+          rw [← hsp]; exact havoid T hTa t (by simp)
     | [], hT, hT', hA, hU, havoid, hr =>
-      simp [refOKn, twoRelations, specAliasMap] at hr
+      -- no table at all: `amValues` is empty
+      have hm : aliasMapping g [] = [] := by
+        rw [aliasMapping_split]
+        have hge : graphExpl g [] = [] := by
+          unfold graphExpl
+          have : (g.edgesOrdered.filterMap (fun e =>
+              match e.1, e.2 with
+              | .ds d, .str a =>
+                if g.ety e.1 e.2 == some .hasAlias && ([] : List DObj).any (·.d == d) then some (a, (d, printedDS g d)) else none
+              | _, _ => none)) = [] := by
+            rw [List.filterMap_eq_nil_iff]
+            rintro ⟨u, v⟩ _
+            cases u <;> cases v <;> simp
+          rw [this]; rfl
+        rw [hge]
+        rfl
+      by_cases hstar : (rn == "*") = true
+      · refine ⟨[], ?_, ?_, ?_⟩
+        · intro acc
+          simp only [tsStep, hstar, if_true, hm]
+          rfl
+        · intro x
+          simp [srcKeys, isStarMulti, hstar, denoted, specAliasMap, amValues]
+        · intro X hX; cases hX
+      · simp [refOKn, twoRelations, specAliasMap, hstar] at hr
     | t1 :: t2 :: rest, hT, hT', hA, hU, havoid, hr =>
-      simp only [refOKn, Bool.and_eq_true, bne_iff_ne, ne_eq] at hr
-      obtain ⟨k1, k2, v1, v2, h1, h2, hne⟩ := twoRelations_spec _ hr.1
-      have hstar : (rn == "*") = false := by simpa using hr.2
-      rw [← amGet_aliasMapping g _ hT' hA hU] at h1 h2
-      obtain ⟨fr, fd, fm⟩ := foldl_addParent (permK k (amValues (aliasMapping g (t1 :: t2 :: rest)))) (Column.mk1 rn none)
       have hperm := SqlLineage.permK_perm k (amValues (aliasMapping g (t1 :: t2 :: rest)))
-      have hin : ∀ (kk : String) (v : DS × String), amGet (aliasMapping g (t1 :: t2 :: rest)) kk = some v →
-          v.1 ∈ ((permK k (amValues (aliasMapping g (t1 :: t2 :: rest)))).foldl (fun col v => col.addParent v)
-            (Column.mk1 rn none)).parents.map (·.1) := by
-        intro kk v hv
-        rw [fd]
-        refine Or.inr ?_
-        obtain ⟨w, hw, hwv⟩ := List.mem_map.mp (amValues_ds _ kk v hv)
-        exact List.mem_map.mpr ⟨w, hperm.mem_iff.mpr hw, hwv⟩
-      have hpn := parent_none_of_two _ v1.1 v2.1 hne (hin k1 v1 h1) (hin k2 v2 h2)
-      refine ⟨(permK k (amValues (aliasMapping g (t1 :: t2 :: rest)))).foldl (fun col v => col.addParent v)
-        (Column.mk1 rn none), ?_, ?_, ?_, ?_⟩
-      · intro acc
-        simp only [tsStep, hstar, Bool.false_eq_true, if_false]
-      · rw [key_of_parent_none _ hpn, fr]
-        simp only [srcCol, Column.mk1, Column.key, Column.printed, Column.parent?, Option.map_none]
-      · intro p hp
-        rcases fm p hp with h | h
-        · simp [Column.mk1] at h
-        · obtain ⟨kk, hkk⟩ := mem_amValues_sub _ p (hperm.mem_iff.mp h)
-          exact isSubq_of_isTable _ (aliasMapping_isTable g _ hT' _ (amGet_mem _ _ _ hkk))
-      · intro T _ sp hsp
-        rw [hpn] at hsp; cases hsp
+      have hget := amGet_aliasMapping g (t1 :: t2 :: rest) hT' hA hU
+      by_cases hstar : (rn == "*") = true
+      · -- `*` over several table references: one `<relation>.*` per denoted relation
+        have hrn : rn = "*" := by simpa using hstar
+        subst hrn
+        refine ⟨(permK k (amValues (aliasMapping g (t1 :: t2 :: rest)))).map (fun v => Column.mk1 "*" (some v)), ?_, ?_, ?_⟩
+        · intro acc
+          simp only [tsStep, beq_self_eq_true, if_true, List.foldl_map]
+        · intro x
+          have hsm : isStarMulti (t1 :: t2 :: rest) ("*", none) = true := rfl
+          simp only [srcKeys, hsm, if_true, List.map_map, List.mem_map, denoted, Function.comp]
+          constructor
+          · rintro ⟨v, hv, rfl⟩
+            obtain ⟨kk, hkk⟩ := mem_amValues_sub _ v (hperm.mem_iff.mp hv)
+            rw [hget] at hkk
+            obtain ⟨_, hpr, _⟩ := specAliasMap_value _ _ (amGet_mem _ _ _ hkk)
+            obtain ⟨w, hw, hwv⟩ := List.mem_map.mp (amValues_ds _ kk v hkk)
+            refine ⟨w, hw, ?_⟩
+            simp only at hpr hwv
+            rw [hwv]
+            unfold starKey
+            rw [← hpr]
+          · rintro ⟨w, hw, rfl⟩
+            obtain ⟨kk, hkk⟩ := mem_amValues_sub _ w hw
+            have hkk' := hkk
+            rw [← hget] at hkk'
+            obtain ⟨v, hv, hvw⟩ := List.mem_map.mp (amValues_ds _ kk w hkk')
+            obtain ⟨kv, hkv⟩ := mem_amValues_sub _ v hv
+            rw [hget] at hkv
+            obtain ⟨_, hpr, _⟩ := specAliasMap_value _ _ (amGet_mem _ _ _ hkv)
+            refine ⟨v, hperm.mem_iff.mpr hv, ?_⟩
+            simp only at hpr hvw
+            unfold starKey
+            rw [← hvw, ← hpr]
+        · intro X hX
+          obtain ⟨v, hv, rfl⟩ := List.mem_map.mp hX
+          obtain ⟨kk, hkk⟩ := mem_amValues_sub _ v (hperm.mem_iff.mp hv)
+          rw [hget] at hkk
+          obtain ⟨htab, _, o, ho, hod⟩ := specAliasMap_value _ _ (amGet_mem _ _ _ hkk)
+          refine ⟨?_, ?_⟩
+          · intro p hp
+            simp only [Column.mk1, List.mem_singleton] at hp
+            rw [hp]; exact isSubq_of_isTable _ htab
+          · intro T hTa sp hsp
+            simp only [Column.mk1, Column.parent?, Option.some.injEq] at hsp
+            rw [← hsp]
+            simp only at hod
+            rw [← hod]
+            exact havoid T hTa o ho
+      · -- any other unqualified reference over names denoting two relations: left unresolved
+        have hstar' : (rn == "*") = false := by simpa using hstar
+        simp only [refOKn, hstar', Bool.false_or] at hr
+        obtain ⟨k1, k2, v1, v2, h1, h2, hne⟩ := twoRelations_spec _ hr
+        rw [← hget] at h1 h2
+        obtain ⟨fr, fd, fm⟩ := foldl_addParent (permK k (amValues (aliasMapping g (t1 :: t2 :: rest)))) (Column.mk1 rn none)
+        have hin : ∀ (kk : String) (v : DS × String), amGet (aliasMapping g (t1 :: t2 :: rest)) kk = some v →
+            v.1 ∈ ((permK k (amValues (aliasMapping g (t1 :: t2 :: rest)))).foldl (fun col v => col.addParent v)
+              (Column.mk1 rn none)).parents.map (·.1) := by
+          intro kk v hv
+          rw [fd]
+          refine Or.inr ?_
+          obtain ⟨w, hw, hwv⟩ := List.mem_map.mp (amValues_ds _ kk v hv)
+          exact List.mem_map.mpr ⟨w, hperm.mem_iff.mpr hw, hwv⟩
+        have hpn := parent_none_of_two _ v1.1 v2.1 hne (hin k1 v1 h1) (hin k2 v2 h2)
+        refine ⟨[(permK k (amValues (aliasMapping g (t1 :: t2 :: rest)))).foldl (fun col v => col.addParent v)
+          (Column.mk1 rn none)], ?_, ?_, ?_⟩
+        · intro acc
+          simp only [tsStep, hstar', Bool.false_eq_true, if_false, List.foldl_cons, List.foldl_nil]
+        · intro x
+          have hsm : isStarMulti (t1 :: t2 :: rest) (rn, none) = false := by
+            simp only [isStarMulti]; exact hstar'
+          simp only [srcKeys, hsm, Bool.false_eq_true, if_false, List.map_cons, List.map_nil]
+          rw [key_of_parent_none _ hpn, fr]
+          simp only [srcCol, Column.mk1, Column.key, Column.printed, Column.parent?, Option.map_none]
+        · intro X hX
+          simp only [List.mem_singleton] at hX
+          subst hX
+          refine ⟨?_, ?_⟩
+          · intro p hp
+            rcases fm p hp with h | h
+            · simp [Column.mk1] at h
+            · obtain ⟨kk, hkk⟩ := mem_amValues_sub _ p (hperm.mem_iff.mp h)
+              exact isSubq_of_isTable _ (aliasMapping_isTable g _ hT' _ (amGet_mem _ _ _ hkk))
+          · intro T _ sp hsp
+            rw [hpn] at hsp; cases hsp
 
 theorem mem_pushCol (acc : List Column) (c y : Column) (h : y ∈ pushCol acc c) : y ∈ acc ∨ y = c := by
   unfold pushCol at h
@@ -1135,21 +1287,50 @@ theorem mem_keys_pushCol (acc : List Column) (c : Column) (x : Node) :
         exact List.mem_map.mpr ⟨z, hz, rfl⟩
   · simp [List.map_append]
 
-/-- a loop whose every step pushes one column: the keys of the result, and a property of its elements -/
-theorem fold_push_spec {α : Type} (step : List Column → α → List Column) (key' : α → Node) (P : Column → Prop) :
-    ∀ (l : List α) (acc : List Column),
-      (∀ r ∈ l, ∃ X : Column, (∀ acc, step acc r = pushCol acc X) ∧ X.key = key' r ∧ P X) →
-      (∀ x, x ∈ (l.foldl step acc).map (·.key) ↔ x ∈ acc.map (·.key) ∨ x ∈ l.map key') ∧
-      (∀ y ∈ l.foldl step acc, y ∈ acc ∨ P y)
-  | [], acc, _ => ⟨fun x => by simp, fun y hy => Or.inl hy⟩
-  | r :: rest, acc, h => by
-    obtain ⟨X, hX, hk, hP⟩ := h r (by simp)
-    obtain ⟨ih1, ih2⟩ := fold_push_spec step key' P rest (step acc r) (fun r' hr' => h r' (by simp [hr']))
+theorem pushAll_spec : ∀ (XS acc : List Column),
+    (∀ x, x ∈ (XS.foldl pushCol acc).map (·.key) ↔ x ∈ acc.map (·.key) ∨ x ∈ XS.map (·.key)) ∧
+    (∀ y ∈ XS.foldl pushCol acc, y ∈ acc ∨ y ∈ XS)
+  | [], acc => ⟨fun x => by simp, fun y hy => Or.inl hy⟩
+  | X :: r, acc => by
+    obtain ⟨h1, h2⟩ := pushAll_spec r (pushCol acc X)
     simp only [List.foldl_cons]
     constructor
     · intro x
-      rw [ih1 x, hX acc, mem_keys_pushCol, hk]
+      rw [h1 x, mem_keys_pushCol]
       simp only [List.map_cons, List.mem_cons]
+      constructor
+      · rintro ((h | h) | h)
+        · exact Or.inl h
+        · exact Or.inr (Or.inl h)
+        · exact Or.inr (Or.inr h)
+      · rintro (h | h | h)
+        · exact Or.inl (Or.inl h)
+        · exact Or.inl (Or.inr h)
+        · exact Or.inr h
+    · intro y hy
+      rcases h2 y hy with h | h
+      · rcases mem_pushCol _ _ _ h with h' | h'
+        · exact Or.inl h'
+        · exact Or.inr (by simp [h'])
+      · exact Or.inr (by simp [h])
+
+/-- a loop whose every step pushes some columns: the keys of the result, and a property of its elements -/
+theorem fold_push_spec {α : Type} (step : List Column → α → List Column) (KS : α → List Node) (P : Column → Prop) :
+    ∀ (l : List α) (acc : List Column),
+      (∀ r ∈ l, ∃ XS : List Column, (∀ acc, step acc r = XS.foldl pushCol acc) ∧
+        (∀ x, x ∈ XS.map (·.key) ↔ x ∈ KS r) ∧ ∀ X ∈ XS, P X) →
+      (∀ x, x ∈ (l.foldl step acc).map (·.key) ↔ x ∈ acc.map (·.key) ∨ x ∈ l.flatMap KS) ∧
+      (∀ y ∈ l.foldl step acc, y ∈ acc ∨ P y)
+  | [], acc, _ => ⟨fun x => by simp, fun y hy => Or.inl hy⟩
+  | r :: rest, acc, h => by
+    obtain ⟨XS, hX, hk, hP⟩ := h r (by simp)
+    obtain ⟨ih1, ih2⟩ := fold_push_spec step KS P rest (step acc r) (fun r' hr' => h r' (by simp [hr']))
+    obtain ⟨p1, p2⟩ := pushAll_spec XS acc
+    simp only [List.foldl_cons]
+    constructor
+    · intro x
+      rw [ih1 x, hX acc, p1 x, hk x]
+      simp only [List.flatMap_cons, List.mem_append]
       constructor
       · rintro ((h1 | h1) | h1)
         · exact Or.inl h1
@@ -1162,23 +1343,23 @@ theorem fold_push_spec {α : Type} (step : List Column → α → List Column) (
     · intro y hy
       rcases ih2 y hy with h1 | h1
       · rw [hX acc] at h1
-        rcases mem_pushCol _ _ _ h1 with h2 | h2
+        rcases p2 y h1 with h2 | h2
         · exact Or.inl h2
-        · exact Or.inr (by rw [h2]; exact hP)
+        · exact Or.inr (hP y h2)
       · exact Or.inr h1
 
-/-- **`to_source_columns` on the fragment**: the keys of the source columns are the keys the specification names, one per
-    reference; no owner candidate is a subquery; no owner is the written table (when it is not read) -/
+/-- **`to_source_columns` on the fragment**: the keys of the source columns are the keys the specification names; no owner
+    candidate is a subquery; no owner is the written table (when it is not read) -/
 theorem toSourceColumns_keys (imp : String) (g : LGraph) (tabs : List DObj) (c : ColSpec) (k : Nat)
     (hT : ∀ o ∈ tabs, isTabRef o = true) (hA : AliasOK g tabs) (hU : aliasesUnambiguous tabs = true)
     (avoid : Option DS) (havoid : ∀ T, avoid = some T → ∀ o ∈ tabs, o.d ≠ T)
     (hc : ∀ r ∈ c.srcs, refOKn imp tabs avoid r = true) :
     (∀ x, x ∈ (toSourceColumns imp (aliasMapping g tabs) c k).map (·.key) ↔
-      x ∈ c.srcs.map (fun r => (srcCol imp tabs r).key)) ∧
+      x ∈ c.srcs.flatMap (srcKeys imp tabs)) ∧
     (∀ y ∈ toSourceColumns imp (aliasMapping g tabs) c k,
       colOK y ∧ ∀ T, avoid = some T → ∀ sp, y.parent? = some sp → sp.1 ≠ T) := by
   rw [toSourceColumns_fold]
-  obtain ⟨h1, h2⟩ := fold_push_spec (tsStep imp (aliasMapping g tabs) k) (fun r => (srcCol imp tabs r).key)
+  obtain ⟨h1, h2⟩ := fold_push_spec (tsStep imp (aliasMapping g tabs) k) (srcKeys imp tabs)
     (fun y => colOK y ∧ ∀ T, avoid = some T → ∀ sp, y.parent? = some sp → sp.1 ≠ T) c.srcs []
     (fun r hr => tsStep_spec imp g tabs k hT hA hU avoid havoid r (hc r hr))
   refine ⟨fun x => ?_, fun y hy => ?_⟩
@@ -1773,7 +1954,15 @@ theorem colSpecOf_srcs (env : Env) (e : Expr) (alias : Option String) (k : Bool)
       cases e <;> simp [ColSpec.of, normRef]
 
 /-- the keys of the source columns of a column spec, by the specification -/
-def KEYSof (imp : String) (tabs : List DObj) (c : ColSpec) : List Node := c.srcs.map (fun r => (srcCol imp tabs r).key)
+def KEYSof (imp : String) (tabs : List DObj) (c : ColSpec) : List Node := c.srcs.flatMap (srcKeys imp tabs)
+
+theorem srcKeys_isCol (imp : String) (tabs : List DObj) (r : String × Option String) :
+    ∀ x ∈ srcKeys imp tabs r, x.isCol = true := by
+  intro x hx
+  unfold srcKeys at hx
+  split at hx
+  · obtain ⟨d, _, rfl⟩ := List.mem_map.mp hx; rfl
+  · simp only [List.mem_singleton] at hx; rw [hx]; rfl
 
 /-- the pairs wired by the cleanup are the pairs of the specification -/
 theorem keyPairs_spec (env : Env) (tgt : List String) (its : List Item) (frm : List FromExpr) (x : Node × Node) :
@@ -1783,18 +1972,18 @@ theorem keyPairs_spec (env : Env) (tgt : List String) (its : List Item) (frm : L
   unfold keyPairs specPairs KEYSof
   simp only [List.mem_flatMap, List.mem_map]
   constructor
-  · rintro ⟨c, ⟨it, hit, rfl⟩, a, ⟨r, hr, rfl⟩, rfl⟩
+  · rintro ⟨c, ⟨it, hit, rfl⟩, a, ⟨r, hr, ha⟩, rfl⟩
     refine ⟨it, hit, ?_⟩
     obtain ⟨e, al, kw⟩ := it
     rw [colSpecOf_srcs] at hr
     obtain ⟨r0, hr0, rfl⟩ := List.mem_map.mp hr
-    simp only [itemPairs, List.mem_map]
-    exact ⟨r0, hr0, rfl⟩
+    simp only [itemPairs, List.mem_flatMap, List.mem_map]
+    exact ⟨r0, hr0, a, ha, rfl⟩
   · rintro ⟨it, hit, hx⟩
     obtain ⟨e, al, kw⟩ := it
-    simp only [itemPairs, List.mem_map] at hx
-    obtain ⟨r0, hr0, rfl⟩ := hx
-    refine ⟨colSpecOf env (.mk e al kw), ⟨_, hit, rfl⟩, _, ⟨normRef r0, ?_, rfl⟩, rfl⟩
+    simp only [itemPairs, List.mem_flatMap, List.mem_map] at hx
+    obtain ⟨r0, hr0, a, ha, rfl⟩ := hx
+    refine ⟨colSpecOf env (.mk e al kw), ⟨_, hit, rfl⟩, a, ⟨normRef r0, ?_, ha⟩, rfl⟩
     rw [colSpecOf_srcs]
     exact List.mem_map.mpr ⟨r0, hr0, rfl⟩
 
@@ -2011,9 +2200,9 @@ theorem specPairs_isCol (env : Env) (tgt : List String) (its : List Item) (frm :
   unfold specPairs at hp
   obtain ⟨it, _, hit⟩ := List.mem_flatMap.mp hp
   obtain ⟨e, a, k⟩ := it
-  simp only [itemPairs, List.mem_map] at hit
-  obtain ⟨r, _, rfl⟩ := hit
-  exact ⟨rfl, rfl⟩
+  simp only [itemPairs, List.mem_flatMap, List.mem_map] at hit
+  obtain ⟨r, _, x, hx, rfl⟩ := hit
+  exact ⟨srcKeys_isCol _ _ _ x hx, rfl⟩
 
 /-- **end to end, query level**: `CreateInsertExtractor.extract` on the fragment succeeds, and every edge of its holder is
     known: LINEAGE = the specified pairs, HAS_COLUMN = their owners, HAS_ALIAS = the table references, nothing else -/
@@ -2097,19 +2286,19 @@ theorem analyze_exact (env : Env) (silent : Bool) (s : Stmt) (hp : env.prov.trut
 theorem mem_specPairs (env : Env) (tgt : List String) (its : List Item) (frm : List FromExpr) (u v : Node) :
     (u, v) ∈ specPairs env tgt its frm ↔
       ∃ e a k, Item.mk e a k ∈ its ∧ ∃ r ∈ refs e,
-        u = (srcCol env.importDefault (fromTabs env frm) (normRef r)).key ∧ v = (tgtCol env tgt (.mk e a k)).key := by
+        u ∈ srcKeys env.importDefault (fromTabs env frm) (normRef r) ∧ v = (tgtCol env tgt (.mk e a k)).key := by
   unfold specPairs
   rw [List.mem_flatMap]
   constructor
   · rintro ⟨it, hit, h⟩
     obtain ⟨e, a, k⟩ := it
-    simp only [itemPairs, List.mem_map, Prod.mk.injEq] at h
-    obtain ⟨r, hr, h1, h2⟩ := h
-    exact ⟨e, a, k, hit, r, hr, h1.symm, h2.symm⟩
+    simp only [itemPairs, List.mem_flatMap, List.mem_map, Prod.mk.injEq] at h
+    obtain ⟨r, hr, x, hx, h1, h2⟩ := h
+    exact ⟨e, a, k, hit, r, hr, by rw [← h1]; exact hx, h2.symm⟩
   · rintro ⟨e, a, k, hit, r, hr, h1, h2⟩
     refine ⟨_, hit, ?_⟩
-    simp only [itemPairs, List.mem_map, Prod.mk.injEq]
-    exact ⟨r, hr, h1.symm, h2.symm⟩
+    simp only [itemPairs, List.mem_flatMap, List.mem_map, Prod.mk.injEq]
+    exact ⟨r, hr, u, h1, rfl, h2.symm⟩
 
 /-- the target column of an item: `<written table>.<name by the naming rule>`, owned by the written table -/
 theorem tgtCol_key (env : Env) (tgt : List String) (it : Item) :
@@ -2662,9 +2851,9 @@ def specPairsPos (env : Env) (tgt : List String) (cs : List String) (its : List 
     List (Node × Node) :=
   (its.zip cs).flatMap (fun ic =>
     match ic.1 with
-    | .mk e _ _ => (refs e).map (fun r =>
-        ((srcCol env.importDefault (fromTabs env frm) (normRef r)).key,
-         (Column.mk1 (Ident.escapeS ic.2) (some ((mkTable env tgt none).d, (mkTable env tgt none).printed))).key)))
+    | .mk e _ _ => (refs e).flatMap (fun r =>
+        (srcKeys env.importDefault (fromTabs env frm) (normRef r)).map (fun x =>
+          (x, (Column.mk1 (Ident.escapeS ic.2) (some ((mkTable env tgt none).d, (mkTable env tgt none).printed))).key))))
 
 /-- the HAS_COLUMN edges of the column list itself: the written table owns every listed column, wired or not -/
 def listedOwners (env : Env) (tgt : List String) (cs : List String) : List (Node × Node) :=
@@ -2703,17 +2892,18 @@ theorem posPairs_spec (env : Env) (tgt : List String) (cs : List String) (its : 
   rw [List.zip_map]
   simp only [List.mem_flatMap, List.mem_map]
   constructor
-  · rintro ⟨cw, ⟨ic, hic, rfl⟩, a, ⟨r, hr, rfl⟩, rfl⟩
+  · rintro ⟨cw, ⟨ic, hic, rfl⟩, a, ⟨r, hr, ha⟩, rfl⟩
     refine ⟨ic, hic, ?_⟩
     obtain ⟨⟨e, al, kw⟩, cn⟩ := ic
     simp only [Prod.map_apply] at hr ⊢
     rw [colSpecOf_srcs] at hr
     obtain ⟨r0, hr0, rfl⟩ := List.mem_map.mp hr
-    exact List.mem_map.mpr ⟨r0, hr0, rfl⟩
+    exact List.mem_flatMap.mpr ⟨r0, hr0, List.mem_map.mpr ⟨a, ha, rfl⟩⟩
   · rintro ⟨ic, hic, hx⟩
     obtain ⟨⟨e, al, kw⟩, cn⟩ := ic
-    obtain ⟨r0, hr0, rfl⟩ := List.mem_map.mp hx
-    refine ⟨_, ⟨(.mk e al kw, cn), hic, rfl⟩, _, ⟨normRef r0, ?_, rfl⟩, rfl⟩
+    obtain ⟨r0, hr0, hx'⟩ := List.mem_flatMap.mp hx
+    obtain ⟨a, ha, rfl⟩ := List.mem_map.mp hx'
+    refine ⟨_, ⟨(.mk e al kw, cn), hic, rfl⟩, a, ⟨normRef r0, ?_, ha⟩, rfl⟩
     simp only [Prod.map_apply]
     rw [colSpecOf_srcs]
     exact List.mem_map.mpr ⟨r0, hr0, rfl⟩
@@ -2724,9 +2914,9 @@ theorem specPairsPos_isCol (env : Env) (tgt : List String) (cs : List String) (i
   unfold specPairsPos at hp
   obtain ⟨ic, _, hic⟩ := List.mem_flatMap.mp hp
   obtain ⟨⟨e, a, k⟩, cn⟩ := ic
-  simp only [List.mem_map] at hic
-  obtain ⟨r, _, rfl⟩ := hic
-  rfl
+  obtain ⟨r, _, hx⟩ := List.mem_flatMap.mp hic
+  obtain ⟨x, hx', rfl⟩ := List.mem_map.mp hx
+  exact srcKeys_isCol _ _ _ x hx'
 
 /-- **end to end, query level, column list** -/
 theorem exWriteQueryCols_exact (env : Env) (isInsert : Bool) (tgt : List String) (cs : List String) (d : Bool)
@@ -2904,19 +3094,52 @@ theorem mem_specPairsPos (env : Env) (tgt : List String) (cs : List String) (its
     (u v : Node) :
     (u, v) ∈ specPairsPos env tgt cs its frm ↔
       ∃ e a k c, (Item.mk e a k, c) ∈ its.zip cs ∧ ∃ r ∈ refs e,
-        u = (srcCol env.importDefault (fromTabs env frm) (normRef r)).key ∧
+        u ∈ srcKeys env.importDefault (fromTabs env frm) (normRef r) ∧
         v = .col ((mkTable env tgt none).printed ++ "." ++ Ident.escapeS c) (some (mkTable env tgt none).d) := by
   unfold specPairsPos
   rw [List.mem_flatMap]
   constructor
   · rintro ⟨ic, hic, h⟩
     obtain ⟨⟨e, a, k⟩, c⟩ := ic
-    obtain ⟨r, hr, h1⟩ := List.mem_map.mp h
+    obtain ⟨r, hr, h0⟩ := List.mem_flatMap.mp h
+    obtain ⟨x, hx, h1⟩ := List.mem_map.mp h0
     simp only [Prod.mk.injEq] at h1
-    exact ⟨e, a, k, c, hic, r, hr, h1.1.symm, h1.2.symm⟩
+    exact ⟨e, a, k, c, hic, r, hr, by rw [← h1.1]; exact hx, h1.2.symm⟩
   · rintro ⟨e, a, k, c, hic, r, hr, h1, h2⟩
-    refine ⟨(.mk e a k, c), hic, List.mem_map.mpr ⟨r, hr, ?_⟩⟩
-    rw [h1, h2]; rfl
+    refine ⟨(.mk e a k, c), hic, List.mem_flatMap.mpr ⟨r, hr, List.mem_map.mpr ⟨u, h1, ?_⟩⟩⟩
+    rw [h2]; rfl
+
+/-! ### reading `srcKeys` -/
+
+theorem srcKeys_qualified (imp : String) (tabs : List DObj) (c q : String) :
+    srcKeys imp tabs (c, some q) = [(srcCol imp tabs (c, some q)).key] := by
+  have : isStarMulti tabs (c, some q) = false := by unfold isStarMulti; cases tabs <;> rfl
+  simp [srcKeys, this]
+
+theorem srcKeys_single (imp : String) (t : DObj) (c : String) :
+    srcKeys imp [t] (c, none) = [(srcCol imp [t] (c, none)).key] := by
+  simp [srcKeys, isStarMulti]
+
+theorem srcKeys_unresolved (imp : String) (tabs : List DObj) (h : tabs.length ≠ 1) (c : String) (hc : c ≠ "*") :
+    srcKeys imp tabs (c, none) = [.col c none] := by
+  have hsm : isStarMulti tabs (c, none) = false := by
+    match tabs, h with
+    | [], _ => simpa [isStarMulti] using hc
+    | _ :: _ :: _, _ => simpa [isStarMulti] using hc
+    | [t], h => exact absurd rfl h
+  simp only [srcKeys, hsm, Bool.false_eq_true, if_false]
+  rw [srcCol_key_unresolved imp tabs h c]
+
+theorem srcKeys_star (imp : String) (tabs : List DObj) (h : tabs.length ≠ 1) :
+    srcKeys imp tabs ("*", none) = (denoted tabs).map starKey := by
+  have hsm : isStarMulti tabs ("*", none) = true := by
+    match tabs, h with
+    | [], _ => rfl
+    | _ :: _ :: _, _ => rfl
+    | [t], h => exact absurd rfl h
+  simp only [srcKeys, hsm, if_true]
+
+theorem starKey_table (s n : String) : starKey (.table s n) = .col (s ++ "." ++ n ++ "." ++ "*") (some (.table s n)) := rfl
 
 
 end SqlLineage.ColumnsExact
